@@ -156,7 +156,7 @@ fn p_inst(p: &P, slots: &BTreeMap<String, Name>, vars: &BTreeMap<String, T>) -> 
     }
 }
 
-pub const RULES: [(&str, &str, &str); 19] = [
+pub const RULES: [(&str, &str, &str); 20] = [
     ("slots-and-var", "(b (f $a $b) ?x)", "(b ?x (g $a $b))"),
     ("slots-and-var-under-binder", "(lam $z (b (f $z $a) ?x))", "(lam $z (b ?x (g $a $z)))"),
     ("dup", "(b ?x ?x)", "(u ?x)"),
@@ -178,6 +178,8 @@ pub const RULES: [(&str, &str, &str); 19] = [
     ("deep-tie-rev", "(b (h $a) (u (f $b $a)))", "(g $b $a)"),
     // a 4-slot child whose orientation is pinned by a sibling
     ("four-slots", "(b (b (f $a $b) (g $c $d)) (f $a $c))", "(t $a $b $d)"),
+    // a repeated variable below two different nodes whose other children pin different argument orders of its class
+    ("shared-var-two-nodes", "(b (b ?a ?x) (b ?a ?y))", "(k ?a ?x ?y)"),
 ];
 
 /// companion rules: applied in the SAME apply_rewrites call, before or after the rule under test.  Each of them
@@ -187,7 +189,7 @@ pub const COMPANIONS: [(&str, &str, &str); 4] = [("drop-f", "(f $a $b)", "c"), (
 
 /// candidate terms for a pattern variable; `bound` = instance names of the binders in whose scope the variable lies
 fn var_terms(bound: &[Name], pat_slot_image: Option<Name>) -> Vec<T> {
-    let mut v = vec![leaf("c", &[]), leaf("h", &[7]), leaf("var", &[7]), leaf("f", &[7, 8]), node1("u", leaf("c", &[])), node1("u", leaf("h", &[7])), leaf("f", &[8, 7])];
+    let mut v = vec![leaf("c", &[]), leaf("h", &[7]), leaf("var", &[7]), leaf("f", &[7, 8]), node1("u", leaf("c", &[])), node1("u", leaf("h", &[7])), leaf("f", &[8, 7]), leaf("h", &[8])];
     if let Some(a) = pat_slot_image {
         v.push(leaf("h", &[a]));
         v.push(leaf("f", &[a, 7]));
